@@ -415,30 +415,52 @@ def run(ctx):
     # ------------------------------------------------------------------ R6 token id range checks
     vt = ctx.body(TP + "::validate_tokens_raw")
     work = vt.call_blocks("llguidance::earley::parser::Parser::validate_tokens")
-    # a loop compares every token id with vocab_size; an out-of-range id returns before the validation call
-    cmp_true = L.guard_edges(vt, lambda e: e[0] == "bin" and e[1] in ("Ge", "Gt") and "vocab_size" in repr(e), True)
-    cmp_blocks = sorted(set(bi for bi, _ in cmp_true))
-    reach = set()
-    for (_, t) in cmp_true:
-        reach |= vt.reachable(t, cut_blocks=cmp_blocks)
-    ok = bool(work) and bool(cmp_true) and not (reach & set(work)) and all(w not in vt.reachable(0, cut_blocks=[
-        p for cb in cmp_blocks for p in vt.preds(cb)]) for w in work)
-    # the loop runs over the whole `tokens` slice that is validated afterwards
-    whole = False
-    tok_param = next((l for l in range(1, vt.argc + 1) if vt.locals[l].get("n") == "tokens"), None)
+    # a loop over the whole `tokens` slice checks every id against vocab_size; only the in-range outcome continues
+    in_range = [(lambda e: e[0] == "bin" and e[1] in ("Ge", "Gt") and "vocab_size" in repr(e), False),
+                (lambda e: e[0] == "bin" and e[1] in ("Lt", "Le") and "vocab_size" in repr(e), True)]
+    G = L.guard_edges_multi(vt, in_range)
+    tok_param = next((l for l in range(1, vt.argc + 1) if vt.local_ty(l).replace(" ", "") in ("&[u32]", "&[toktrie::TokenId]")), None)
+    iters = []
     for bi, t in vt.calls():
         d = t["f"].get("def", "")
         if d.endswith("::into_iter") or d.endswith("::iter"):
-            e = vt.expr(t["args"][0])
-            if L.root_local(vt, e) == tok_param and tok_param is not None:
-                whole = True
-    ok = ok and whole
+            if tok_param is not None and L.root_local(vt, vt.expr(t["args"][0])) == tok_param:
+                iters.append(t["dest"][0])
+    changed = True
+    while changed:   # `iter = move _tmp`
+        changed = False
+        for l, ds in vt.defs().items():
+            if l not in iters and len(ds) == 1 and ds[0][2] == "assign" and ds[0][3]["rv"] == "use":
+                pl = F.op_place(ds[0][3]["o"])
+                if pl and len(pl) == 1 and pl[0] in iters:
+                    iters.append(l)
+                    changed = True
+    nexts = []
+    for bi, t in vt.calls():
+        if t["f"].get("def", "").endswith("::next") and t["args"]:
+            if L.root_local(vt, vt.expr(t["args"][0]), any_call=False) in iters or any(
+                    F.op_place(a) and vt.expr(a)[0] in ("ref", "place") and vt.expr(a)[1][0] in iters for a in t["args"]):
+                nexts.append(bi)
+    ok = bool(work) and bool(G) and bool(nexts)
+    if ok:
+        body_entries = []
+        for nb in nexts:
+            for sb, e, targets, otherwise in vt.switch_edges():
+                if e[0] == "discr" and e[1][0] == "call" and len(e[1]) > 3 and e[1][3] == nb:
+                    body_entries += [tb for v, tb in targets if v == 1]
+        ok = bool(body_entries)
+        for s0 in body_entries:
+            r = vt.reachable(s0, cut_edges=G)
+            if r & (set(nexts) | set(work)):
+                ok = False  # an iteration can finish (or reach the validation) without the in-range outcome
+        if any(w in vt.reachable(0, cut_blocks=nexts) for w in work):
+            ok = False      # the validation call is reachable without going through the checking loop
     ctx.check(ok, "C20-R6", "validate_tokens_raw:range-check",
               "every token id is compared with vocab_size before validation; an out-of-range id returns early",
               "validate_tokens_raw no longer range-checks token ids before handing them to the parser", site=vt.where())
     at = ctx.body(TP + "::apply_token")
     work = at.call_blocks(lambda d: d.endswith("TokTrie::decode_raw") or d == "llguidance::earley::parser::Parser::apply_token")
-    g = L.guard_edges(at, lambda e: e[0] == "bin" and e[1] in ("Ge", "Lt") and "vocab_size" in repr(e), False)
+    g = L.guard_edges_multi(at, in_range)
     still = L.dominated_by_cut(at, work, g) if g else work
     ctx.check(bool(work) and bool(g) and not still, "C20-R6", "apply_token:range-check",
               "the token id is compared with vocab_size before decoding / committing", "TokenParser::apply_token no longer range-checks the token id", site=at.where())
